@@ -193,8 +193,9 @@ fn check_header_map() -> bool {
     ops.push(Op::Drain);
     ops.push(Op::Clear);
     let mut seqs: Vec<Vec<Op>> = vec![vec![]];
+    let depth = if std::env::var("VERIF_HARNESS_TIER").map(|v| v == "thorough").unwrap_or(false) { 5 } else { 4 };
     let mut layer: Vec<Vec<Op>> = vec![vec![]];
-    for _ in 0..4 {
+    for _ in 0..depth {
         let mut next = Vec::new();
         for s in &layer { for o in &ops { let mut t = s.clone(); t.push(*o); next.push(t); } }
         seqs.extend(next.iter().cloned());
